@@ -82,6 +82,39 @@ MUTATIONS = [
      ['bid_dpd_to_bid128'], 'bid_dpd_to_bid128: weight of declet 2 is 10^7 instead of 10^6', 'E'),
     ('E06', 'bid_b2d.rs', '    10, 11, 12, 13, 14, 15, 16, 17, 18, 19, 90, 91, 810, 811, 890, 891,', '    10, 11, 12, 13, 14, 15, 16, 17, 18, 19, 90, 91, 810, 811, 890, 892,', 0,
      ['bid_dpd_to_bid128'], 'bid_b2d.rs: one BID_D2B entry (a non-canonical declet, row 31) changed', 'E'),
+    # ---- group F (pack routine, scalbn, ldexp) and group H (helpers): run with groups 'F' / 'H' only
+    ('F01', 'bid128_scalbn.rs', 'res.w[1] = CX.w[1] & QUIET_MASK64;', 'res.w[1] = CX.w[1];', 0,
+     ['bid128_scalbn'], 'scalbn: a signaling NaN operand is no longer quieted', 'F'),
+    ('F02', 'bid128_ldexp.rs', 'CX2.w[1]     = (CX.w[1] << 1) | (CX.w[0] >> 63);', 'CX2.w[1]     = (CX.w[1] << 1) | (CX.w[0] >> 62);', 0,
+     ['bid128_ldexp'], 'ldexp: the zero-padding loop takes two bits instead of one from the low word (2*C wrong)', 'F'),
+    ('F03', 'bid_internal.rs', '    if sgn != 0 && ((rmode as u32 - 1u32) < 2) {\n        rmode = RoundingMode::from(3 - (rmode as u32));',
+     '    if sgn != 0 && ((rmode as u32 - 1u32) < 2) {\n        rmode = RoundingMode::from(4 - (rmode as u32));', 1,
+     ['bid_get_BID128', 'bid128_scalbn', 'bid128_ldexp'],
+     'handle_UF_128: directed modes of a negative operand are mapped 1->3, 2->2 instead of swapped (shared file ImplUF.v fails: all three)', 'F'),
+    ('F04', 'bid_decimal_data.rs', '    6,	        // 134 - 128', '    7,	        // 134 - 128', 0,
+     ['bid_get_BID128', 'bid128_scalbn', 'bid128_ldexp'], 'bid_decimal_data.rs: one BID_RECIP_SCALE entry changed (row 5)', 'F'),
+    ('F05', 'bid_internal.rs', '            || (sgn != 0 && rnd_mode == RoundingMode::Upward)\n            || (sgn == 0 && rnd_mode == RoundingMode::Downward) {\n                pres.w[1] = sgn | LARGEST_BID128_HIGH;',
+     '            || (sgn != 0 && rnd_mode == RoundingMode::Downward)\n            || (sgn == 0 && rnd_mode == RoundingMode::Downward) {\n                pres.w[1] = sgn | LARGEST_BID128_HIGH;', 0,
+     ['bid_get_BID128', 'bid128_scalbn', 'bid128_ldexp'], 'bid_get_BID128: overflow of a negative operand saturates under Downward instead of Upward', 'F'),
+    ('F06', 'bid_internal.rs', '        if expon - (MAX_FORMAT_DIGITS_128 as i32) <= (DECIMAL_MAX_EXPON_128) {',
+     '        if expon - 2 * (MAX_FORMAT_DIGITS_128 as i32) <= (DECIMAL_MAX_EXPON_128) {', 0,
+     ['bid_get_BID128', 'bid128_scalbn', 'bid128_ldexp'],
+     'bid_get_BID128: the guard of the padding loop admits an exponent excess of 68: a zero coefficient then needs 68 iterations, more than the literal fuel 36', 'F'),
+    ('F07', 'bid128_scalbn.rs', '          exponent_x -= 1;\n          exp64      -= 1;\n', '          exp64      -= 1;\n          exponent_x -= 1; // swapped\n', 0,
+     [], 'scalbn: two independent statements of the loop body swapped, comment added (harmless)', 'F'),
+    ('F08', 'bid_internal.rs', '    if rnd_mode == RoundingMode::NearestEven && (CQ.w[0] & 1) == 1 {\n        // check whether fractional part of initial_P/10^ed1 is exactly .5',
+     '    if rnd_mode == RoundingMode::NearestAway && (CQ.w[0] & 1) == 1 {\n        // check whether fractional part of initial_P/10^ed1 is exactly .5', 0,
+     ['bid_get_BID128', 'bid128_scalbn', 'bid128_ldexp'], 'handle_UF_128: the tie correction is applied for NearestAway instead of NearestEven', 'F'),
+    ('P01', 'bid_internal.rs', 'if S < X1 || X1 < CI { 1u64 }', 'if S < X1 { 1u64 }', 0,
+     ['__add_carry_in_out', '__mul_64x192_to_256', '__mul_128x128_to_256', '__sqr128_to_256'],
+     '__add_carry_in_out: the carry of X + CI is dropped: the helper and the three helpers above it', 'H'),
+    ('P02', 'bid_internal.rs', None, None, 0, ['__sub_borrow_out'], '__sub_borrow_out: borrow test S > X1 weakened to S >= X1', 'H'),
+    ('P03', 'bid_internal.rs', '    PH += PM >> 32;\n    PM  = ((PM as BID_UINT32) as BID_UINT64) + PM2 + (PL >> 32) as BID_UINT64;\n\n    BID_UINT128::new(PH + (PM >> 32), (PM << 32) + ((PL as BID_UINT32) as BID_UINT64))\n}\n',
+     '    PH += PM >> 31;\n    PM  = ((PM as BID_UINT32) as BID_UINT64) + PM2 + (PL >> 32) as BID_UINT64;\n\n    BID_UINT128::new(PH + (PM >> 32), (PM << 32) + ((PL as BID_UINT32) as BID_UINT64))\n}\n', 0,
+     ['__mul_64x64_to_128', '__mul_64x128_full', '__mul_64x128_to_192', '__mul_64x128_to192', '__mul_64x128_to_256', '__mul_64x128_low',
+      '__mul_64x128_to_128', '__mul_64x128_short', '__mul_64x192_to_256', '__mul_128x128_to_256', '__mul_128x128_low', '__mul_128x128_full',
+      '__mul_128x128_high', '__sqr128_to_256'],
+     '__mul_64x64_to_128 carries PM >> 31: the helper and every helper built on it (the _full/_fast/MACH/HIGH variants are separate functions)', 'H'),
     # harmless edits: everything must still check
     ('H01', NC, None, None, 0, [], 'is_zero: local variable sig_x renamed to sx (whole function)'),
     ('H02', NC, '    let x_exp: BID_UINT64;\n    let y_exp: BID_UINT64;\n\n    #[cfg(target_endian = "big")]\n    let mut x = *x;',
@@ -105,7 +138,12 @@ def apply_mutation(srcdir, m):
     path = os.path.join(srcdir, fname)
     with open(path, encoding='utf-8') as f:
         text = f.read()
-    if mid == 'H01':
+    if mid == 'P02':
+        a = text.index('fn __sub_borrow_out')
+        b = text.index('}', text.index('S > X1', a))
+        assert 'S > X1' in text[a:b]
+        text = text[:a] + text[a:b].replace('S > X1', 'S >= X1') + text[b:]
+    elif mid == 'H01':
         a = text.index('pub (crate) fn bid128_is_zero')
         b = text.index('pub (crate) fn bid128_is_inf')
         body = text[a:b]
